@@ -51,6 +51,9 @@ def make_traj(Rs, ps, stamps=None, mode="se3", meta=None):
     mode = mode.split("+")[0]
     if mode == "se3":
         kw["poses_se3"] = [geom.pose(R, p) for R, p in zip(Rs, ps)]
+    elif mode == "arr":
+        # the pose matrices as one (n, 4, 4) array instead of a list
+        kw["poses_se3"] = np.array([geom.pose(R, p) for R, p in zip(Rs, ps)])
     elif mode == "quat":
         kw["positions_xyz"] = np.array([np.asarray(p, dtype=float) for p in ps])
         kw["orientations_quat_wxyz"] = np.array(
